@@ -6,6 +6,7 @@ import (
 	"encoding/json"
 	"fmt"
 	"math"
+	"os"
 	"runtime"
 	"sort"
 	"strconv"
@@ -49,6 +50,8 @@ type vProcT struct {
 	defs      map[string]*AppInfo
 	licHandle map[string]string
 	ahs       map[string]*AppHarvest
+	crashed   chan struct{} // closed when the processor goroutine panicked (the real worker would exit 3)
+	tainted   map[string]bool
 }
 
 var vProc *vProcT
@@ -103,6 +106,9 @@ func (v *vProcT) Execute(cmd *collector.RpmCmd, cs collector.RpmControls) collec
 		hdr: vCanonHdr(cmd.RequestHeadersMap), payload: vCanonPayload(cmd.Name, data), ch: make(chan collector.RPMResponse, 1)}
 	r.owner = r.run
 	v.mu.Lock()
+	if v.tainted[r.run] {
+		r.payload = "*" // a corrupt message was addressed to this run: its own payloads are not compared
+	}
 	if r.run == "" {
 		r.owner = v.licHandle[r.lic]
 	}
@@ -347,6 +353,24 @@ func vCanonPayload(cmd string, data []byte) string {
 
 // ---------------------------------------------------------------------------------------------------
 
+var vStatFile *os.File
+
+// vStat appends one line to the file named by VERIF_STATS (outcome classes for the evidence histogram)
+func vStat(s string) {
+	if vStatFile == nil {
+		p := os.Getenv("VERIF_STATS")
+		if p == "" {
+			return
+		}
+		f, err := os.OpenFile(p, os.O_APPEND|os.O_CREATE|os.O_WRONLY, 0644)
+		if err != nil {
+			return
+		}
+		vStatFile = f
+	}
+	vStatFile.WriteString(s + "\n")
+}
+
 func vExpect(t []string) int {
 	if v, ok := vKV(t, "expect"); ok {
 		n, _ := strconv.Atoi(v)
@@ -359,8 +383,90 @@ func (v *vProcT) tick() bool {
 	select {
 	case <-v.p.trackProgress:
 		return true
+	case <-v.crashed:
+		return false
 	case <-time.After(vWatchdog):
 		return false
+	}
+}
+
+func (v *vProcT) isCrashed() bool {
+	select {
+	case <-v.crashed:
+		return true
+	default:
+		return false
+	}
+}
+
+// vSpy forwards to the processor and remembers whether transaction data / a span batch was queued
+type vSpy struct {
+	p      *Processor
+	queued int
+}
+
+func (s *vSpy) IncomingTxnData(id AgentRunID, sample AggregaterInto) {
+	s.queued++
+	s.p.IncomingTxnData(id, sample)
+}
+func (s *vSpy) IncomingSpanBatch(b SpanBatch) { s.queued++; s.p.IncomingSpanBatch(b) }
+func (s *vSpy) IncomingAppInfo(id *AgentRunID, info *AppInfo) AppInfoReply {
+	return AppInfoReply{State: AppStateUnknown} // app messages are answered without involving the processor here
+}
+
+// vMutate applies one structured mutation, chosen by the seed, to a valid message
+func vMutate(msg []byte, seed uint64) ([]byte, string) {
+	next := func() uint64 { // xorshift
+		seed ^= seed << 13
+		seed ^= seed >> 7
+		seed ^= seed << 17
+		return seed
+	}
+	if seed == 0 {
+		seed = 88172645463325252
+	}
+	out := append([]byte(nil), msg...)
+	n := uint64(len(out))
+	kind := next() % 8
+	switch kind {
+	case 0: // bit flips
+		for k := uint64(0); k < 1+next()%3; k++ {
+			i := next() % n
+			out[i] ^= 1 << (next() % 8)
+		}
+		return out, "bitflip"
+	case 1: // truncate
+		return out[:next()%n], "truncate"
+	case 2: // overwrite a 4-byte aligned word (offset / length / vtable entry) with an extreme value
+		i := (next() % (n / 4)) * 4
+		vals := [][]byte{{0xff, 0xff, 0xff, 0xff}, {0, 0, 0, 0x80}, {0xff, 0xff, 0xff, 0x7f}, {0, 0, 0, 0}, {byte(n), byte(n >> 8), 0, 0}, {1, 0, 0, 0}}
+		copy(out[i:], vals[next()%uint64(len(vals))])
+		return out, "word"
+	case 3: // overwrite a 2-byte vtable entry
+		i := (next() % (n / 2)) * 2
+		v := next()
+		out[i], out[i+1] = byte(v), byte(v>>8)
+		return out, "vtable"
+	case 4: // splice: copy a random chunk over another place
+		a, b, l := next()%n, next()%n, 1+next()%16
+		for k := uint64(0); k < l && a+k < n && b+k < n; k++ {
+			out[b+k] = out[a+k]
+		}
+		return out, "splice"
+	case 5: // root offset edit
+		v := next()
+		out[0], out[1] = byte(v), byte(v>>8)
+		if next()%2 == 0 {
+			out[2], out[3] = byte(v>>16), byte(v>>24)
+		}
+		return out, "root"
+	case 6: // random byte noise
+		for k := uint64(0); k < 1+next()%8; k++ {
+			out[next()%n] = byte(next())
+		}
+		return out, "noise"
+	default: // append garbage / duplicate tail
+		return append(out, out[n/2:]...), "extend"
 	}
 }
 
@@ -371,6 +477,10 @@ func (v *vProcT) collect(n int) string {
 	for i := 0; i < n; i++ {
 		select {
 		case r := <-v.arrivals:
+			if r.payload == "*" { // request of a tainted run: parked, not compared
+				i--
+				continue
+			}
 			got = append(got, r.canon())
 		case <-time.After(vWatchdog):
 			i = n
@@ -380,7 +490,9 @@ func (v *vProcT) collect(n int) string {
 		runtime.Gosched()
 		select {
 		case r := <-v.arrivals:
-			got = append(got, r.canon())
+			if r.payload != "*" {
+				got = append(got, r.canon())
+			}
 			k = 0
 		default:
 		}
@@ -636,11 +748,19 @@ func vProcOp(t []string) string {
 	op := vStr(t, 1)
 	if op == "init" {
 		vProcShutdown()
-		v := &vProcT{arrivals: make(chan *vReq, 4096), defs: map[string]*AppInfo{}, licHandle: map[string]string{}, ahs: map[string]*AppHarvest{}}
+		v := &vProcT{arrivals: make(chan *vReq, 4096), defs: map[string]*AppInfo{}, licHandle: map[string]string{}, ahs: map[string]*AppHarvest{},
+			crashed: make(chan struct{}), tainted: map[string]bool{}}
 		tmo, _ := strconv.Atoi(vKVor(t, "timeout", "0"))
 		v.p = NewProcessor(ProcessorConfig{Client: v, AppTimeout: time.Duration(tmo) * time.Second})
 		v.p.trackProgress = make(chan struct{})
-		go v.p.Run()
+		go func() {
+			defer func() {
+				if r := recover(); r != nil {
+					close(v.crashed) // the real worker's crashGuard would now exit with status 3
+				}
+			}()
+			v.p.Run()
+		}()
 		if !v.tick() { // utilization
 			return "stuck"
 		}
@@ -651,7 +771,49 @@ func vProcOp(t []string) string {
 	if v == nil {
 		return "no-processor"
 	}
+	if v.isCrashed() {
+		return "processor-crashed"
+	}
 	switch op {
+	case "taint":
+		v.mu.Lock()
+		v.tainted[vStr(t, 2)] = true
+		v.mu.Unlock()
+		return "ok"
+	case "mut":
+		// proc mut <run> seed=<n> <txn spec>: a structured mutation of a valid transaction (or, kind=app / kind=span, of
+		// an application / span-batch message) sent through the real serve() -> CommandsHandler -> processor path
+		run := vStr(t, 2)
+		seedN, _ := strconv.ParseUint(vKVor(t, "seed", "1"), 10, 64)
+		msg := vBuildTxn(run, t)
+		bad, kind := vMutate(msg, seedN)
+		frame := make([]byte, 8+len(bad))
+		byteOrder.PutUint32(frame[0:4], uint32(len(bad)))
+		byteOrder.PutUint32(frame[4:8], uint32(MessageTypeBinary))
+		copy(frame[8:], bad)
+		spy := &vSpy{p: v.p}
+		conn := &vChunkConn{chunks: [][]byte{frame}}
+		done := make(chan struct{})
+		go func() {
+			defer close(done)
+			serve(conn, CommandsHandler{Processor: spy}) // a panic that escapes serve() kills the process, as in the daemon
+		}()
+		select {
+		case <-done:
+		case <-time.After(vWatchdog):
+			return "stuck"
+		}
+		for i := 0; i < spy.queued; i++ {
+			if !v.tick() {
+				if v.isCrashed() {
+					vStat("mut:" + kind + ":processor-crashed")
+					return "processor-crashed"
+				}
+				return "stuck"
+			}
+		}
+		vStat(fmt.Sprintf("mut:%s:queued=%d", kind, spy.queued))
+		return "ok"
 	case "defapp":
 		h := vStr(t, 2)
 		n := func(k string, d int) int { x, err := strconv.Atoi(vKVor(t, k, "")); if err != nil { return d }; return x }
@@ -771,7 +933,12 @@ func vProcOp(t []string) string {
 		sort.Strings(apps)
 		sort.Strings(runs)
 		v.mu.Lock()
-		np := len(v.parked)
+		np := 0
+		for _, r := range v.parked {
+			if r.payload != "*" {
+				np++
+			}
+		}
 		v.mu.Unlock()
 		return fmt.Sprintf("apps=%s runs=%s parked=%d", strings.Join(apps, ","), strings.Join(runs, ","), np)
 	case "cleanexit":
@@ -792,7 +959,7 @@ func vProcOp(t []string) string {
 		var smu sync.Mutex
 		v.mu.Lock()
 		v.immediate = func(r *vReq) collector.RPMResponse {
-			if r.payload != "DU" {
+			if r.payload != "DU" && r.payload != "*" {
 				smu.Lock()
 				seen = append(seen, r.canon())
 				smu.Unlock()
